@@ -100,6 +100,7 @@ pub(super) fn do_sequence_press_logic(
     sequences: &kanata_parser::trie::Trie<(u8, u16)>,
     sequence_backtrack_modcancel: bool,
     layout: &mut BorrowedKLayout,
+    vkeys_pending_release: &mut HashMap<Coord, u16>,
 ) -> Result<(), anyhow::Error> {
     state.ticks_until_timeout = state.sequence_timeout;
     let osc = OsCode::from(*k);
@@ -251,7 +252,15 @@ pub(super) fn do_sequence_press_logic(
     if let HasValue((i, j)) = res_overlapped {
         // First, check for a valid simultaneous completion.
         // Simultaneous completion should take priority.
-        do_successful_sequence_termination(kbd_out, state, layout, i, j, EndSequenceType::Overlap)?;
+        do_successful_sequence_termination(
+            kbd_out,
+            state,
+            layout,
+            vkeys_pending_release,
+            i,
+            j,
+            EndSequenceType::Overlap,
+        )?;
     } else if let HasValue((i, j)) = res {
         // Try terminating the overlapping and check if simultaneous termination worked.
         // Simultaneous completion should take priority.
@@ -261,6 +270,7 @@ pub(super) fn do_sequence_press_logic(
                 kbd_out,
                 state,
                 layout,
+                vkeys_pending_release,
                 oi,
                 oj,
                 EndSequenceType::Overlap,
@@ -270,6 +280,7 @@ pub(super) fn do_sequence_press_logic(
                 kbd_out,
                 state,
                 layout,
+                vkeys_pending_release,
                 i,
                 j,
                 EndSequenceType::Standard,
@@ -285,6 +296,7 @@ pub(super) fn do_successful_sequence_termination(
     kbd_out: &mut KbdOut,
     state: &mut SequenceState,
     layout: &mut Layout<'_, 767, 2, &&[&CustomAction]>,
+    vkeys_pending_release: &mut HashMap<Coord, u16>,
     i: u8,
     j: u16,
     seq_type: EndSequenceType,
@@ -355,6 +367,8 @@ pub(super) fn do_successful_sequence_termination(
             _ => true,
         });
     }
+    // Like any other tap of the virtual key, this one takes over from hold-for-duration.
+    vkeys_pending_release.remove(&Coord { x: i, y: j });
     layout.event(Event::Press(i, j));
     layout.event(Event::Release(i, j));
     Ok(())
